@@ -51,7 +51,7 @@ def gen_case(rng, i):
     if share and inj and rng.random() < 0.6:
         # a violation on one of several mocks sharing a file, first / middle / last in source order
         inj = {"stage": rng.choice(["schema-invalid-iface", "schema-invalid-iface", "template-exec", "template-parse"]), "file": rng.choice([1, 1, n, rng.randint(1, n)])}
-    return {"kind": "write", "i": i, "n": n, "files": files, "share": share, "env_force": rng.choice([None, None, True, False]), "root_force": rng.choice([None, True, False, True]),
+    return {"kind": "write", "i": i, "n": n, "files": files, "share": share, "filename_subdir": rng.random() < 0.2, "env_force": rng.choice([None, None, True, False]), "root_force": rng.choice([None, True, False, True]),
             "pkg_force": rng.choice([None, None, True, False]), "inj": inj, "formatter": rng.choice(["goimports", "gofmt", "noop"])}
 
 
@@ -59,7 +59,8 @@ def build(case, root, server, with_injection, all_force):
     """returns (files dict, cfg, outputs {k: relpath})"""
     n = case["n"]
     files = {"p/p.go": src(n), "p2/q.go": "package p2\n\ntype Q interface{ Query(s string) error }\n"}
-    cfg = {"dir": "out/{{.SrcPackageName}}", "filename": "m_{{.InterfaceName}}.go", "pkgname": "mocks", "formatter": case["formatter"]}
+    fdir = "gen/" if case.get("filename_subdir") else ""   # a filename with a directory component: the designated path is Clean(dir/filename)
+    cfg = {"dir": "out/{{.SrcPackageName}}", "filename": fdir + "m_{{.InterfaceName}}.go", "pkgname": "mocks", "formatter": case["formatter"]}
     if all_force:
         cfg["force-file-write"] = True
     elif case["root_force"] is not None:
@@ -71,7 +72,7 @@ def build(case, root, server, with_injection, all_force):
     outputs = {}
     share = bool(case.get("share"))
     if share:
-        p["config"]["filename"] = "m_all.go"   # all mocks of package p in one output file
+        p["config"]["filename"] = fdir + "m_all.go"   # all mocks of package p in one output file
     for k in range(1, n + 1):
         f = case["files"][0 if share else k - 1]
         ic = {"template": f["template"]}
@@ -114,14 +115,14 @@ def build(case, root, server, with_injection, all_force):
                 ic["require-template-schema-exists"] = False
                 ic["formatter"] = "gofmt" if case["formatter"] == "noop" else case["formatter"]
         p["interfaces"]["I%d" % k] = {"config": ic}
-        outputs[k] = "out/p/m_all.go" if share else "out/p/m_I%d.go" % k
+        outputs[k] = ("out/p/" + fdir + "m_all.go") if share else "out/p/%sm_I%d.go" % (fdir, k)
     cfg["packages"] = {MOD + "/p": p}
     # a second package with one file; the file-level schema violation lives here
     p2 = {"config": {}, "interfaces": {"Q": None}}
     if inj and inj["stage"] == "schema-invalid-file":
         p2["config"]["template-data"] = {"unroll-variadic": "not a boolean"}
     cfg["packages"][MOD + "/p2"] = p2
-    outputs["q"] = "out/p2/m_Q.go"
+    outputs["q"] = "out/p2/" + fdir + "m_Q.go"
     files[".mockery.yml"] = json.dumps(cfg)
     return files, cfg, outputs
 
@@ -142,6 +143,11 @@ def eval_case(ctx, case):
         return Verdict.inconclusive("fault-free reference run failed: " + r0.err[-500:])
     ref = {}
     for k, rel in outputs.items():
+        if not os.path.isfile(os.path.join(ref_root, rel)):
+            written = sorted(os.path.relpath(os.path.join(dp, fn), ref_root) for dp, _, fns in os.walk(os.path.join(ref_root, "out")) for fn in fns)
+            shutil.rmtree(ref_root, ignore_errors=True)
+            return Verdict.violated("a fault-free run on a pristine tree exited 0 but did not write the designated output %s (Clean(dir/filename)); it wrote %s" % (rel, written),
+                                    {"config": rcfg, "written": written}, ["reference-run"] + (["filename-with-directory"] if case.get("filename_subdir") else []))
         with open(os.path.join(ref_root, rel), "rb") as f:
             ref[rel] = f.read()
     shutil.rmtree(ref_root, ignore_errors=True)
@@ -174,6 +180,12 @@ def eval_case(ctx, case):
         # decoys next to the output that an unsafe writer might use as scratch space
         for suffix in (".tmp", ".bak", "~"):
             open(p + suffix if st != "dir" else p + suffix, "w").write("user file next to an output: %s\n" % suffix)
+    if case.get("decoy_at_basename"):
+        for rel in list(outputs.values()):
+            d = os.path.join(root, os.path.dirname(os.path.dirname(rel)), os.path.basename(rel))   # <dir>/<basename>, one level above the designated file
+            os.makedirs(os.path.dirname(d), exist_ok=True)
+            if not os.path.exists(d):
+                open(d, "w").write("package mocks\n\n// hand written, not an output of this run\n")
     before = core.snapshot(root)
     before_bytes = {}
     for rel in outputs.values():
@@ -204,7 +216,7 @@ def eval_case(ctx, case):
     blocked = [rel for rel in outputs.values() if states[rel] != "absent" and not eff_force[rel]]
     dir_clash = [rel for rel in outputs.values() if states[rel] == "dir" and eff_force[rel]]
     must_fail = bool(blocked or dir_clash or inj)
-    tags = ["files=%d" % len(set(outputs.values())), "formatter=" + case["formatter"]] + (["shared-file-of-%d" % case["n"]] if case.get("share") else []) + (["env-contradicts-file"] if case.get("env_force") is not None and case.get("root_force") is not None else []) + (["inject=" + inj["stage"]] if inj else ["no-fault"]) + \
+    tags = ["files=%d" % len(set(outputs.values())), "formatter=" + case["formatter"]] + (["shared-file-of-%d" % case["n"]] if case.get("share") else []) + (["filename-with-directory"] if case.get("filename_subdir") else []) + (["env-contradicts-file"] if case.get("env_force") is not None and case.get("root_force") is not None else []) + (["inject=" + inj["stage"]] if inj else ["no-fault"]) + \
            (["blocked-by-existing"] if blocked else []) + (["dir-at-output"] if dir_clash else []) + ([] if strace else ["no-strace"])
     obs = {"exit": r.exit, "states": states, "effective_force": eff_force, "injected": inj, "must_fail": must_fail,
            "syscall_events": len(r.events), "strace": strace}
@@ -301,6 +313,10 @@ def body(ctx, replay=None):
                 nn = 3 + j % 2
                 cases.append({"kind": "write", "i": 31000 + j, "n": nn, "inj": {"stage": stage, "file": 1}, "formatter": fm,
                               "files": [{"state": st0, "force": None, "template": "testify"}] * nn, "root_force": True, "pkg_force": None})
+            # filename with a directory component, with a user file at <dir>/<basename> that is NOT an output of the run
+            for j, (st0, rf) in enumerate((("absent", None), ("user", True), ("prev-long", True))):
+                cases.append({"kind": "write", "i": 33000 + j, "n": 2, "inj": None, "formatter": "noop", "filename_subdir": True, "decoy_at_basename": True,
+                              "files": [{"state": st0, "force": None, "template": "testify"}, {"state": "absent", "force": None, "template": "matryer"}], "root_force": rf, "pkg_force": None})
             # the environment says the opposite of the file's top-level force-file-write: the file wins
             for j, (rf, st0) in enumerate((a, b) for a in (True, False) for b in ("prev-long", "user")):
                 cases.append({"kind": "write", "i": 32000 + j, "n": 2, "inj": None, "formatter": "gofmt", "env_force": not rf,
